@@ -85,6 +85,7 @@ class C02(Check):
         "floor/ceil texel counts, all permutations x groupings x orientation patterns, painted patterns {none, all, alternating}. "
         "Oracle clauses: completes / core collinear+oriented+gaps / Pretext order / deep cut exact, margin M=3E with strict inequalities. "
         "non-trivial = case with at least one non-empty core or one deep cut evaluated"
+        " Added families: chain inputs (long, short, short, long), a gap longer than the contig after it, abutting pair next to a gapped pair (non-palindromic row pattern); TPF contigs with coordinates offset by 1000*i."
     )
     assumptions = [
         "PretextView model of DESIGN.md 3.2 (coordinates floor(k*bpt), pieces >= 2 texels)",
